@@ -16,6 +16,12 @@ GProvided(comps, prov) == UNION {prov[k] : k \in comps}
 GMissing(comps, prov, req, base) ==
     [k \in comps |-> req[k] \ (base \cup GProvided(comps, prov))]
 
+\* A reaction's computed stoichiometric coefficient takes names too (coefreq[k], empty for everything but
+\* such reactions).  They belong to the completeness clause -- a coefficient naming something nothing provides
+\* makes its reaction a component "naming something that does not exist" -- but not to the order: coefficients
+\* are evaluated once every component has its value, so they can close no cycle.
+GCoefMissing(comps, prov, coefreq, base) ==
+    [k \in comps |-> coefreq[k] \ (base \cup GProvided(comps, prov))]
 GHasMissing(comps, prov, req, base) ==
     \E k \in comps : GMissing(comps, prov, req, base)[k] # {}
 
